@@ -2299,6 +2299,86 @@ lx_harness! {
 }
     };
 }
+pub(crate) fn stub_parse_decimal_none(_s: &str, _i: bool, _f: bool) -> Option<NumericParserResult> {
+    None
+}
+pub(crate) fn stub_parse_hex_none(_s: &str) -> Option<NumericParserResult> {
+    None
+}
+macro_rules! lx_eval_string_lite_harness {
+    ($k:literal, $b:literal, $uw:literal, $name:ident, $gen:expr) => {
+lx_harness! {
+    #[kani::unwind($uw)]
+    #[kani::stub(try_parse_decimal, stub_parse_decimal_none)]
+    #[kani::stub(try_parse_hex_integer, stub_parse_hex_none)]
+    #[kani::stub(is_macro_stat, stub_is_macro_stat)]
+    fn $name() {
+        let t: Txt<$k, $b> = $gen;
+        kani::assume(t.n >= 1);
+        // flags and depth are constants here (they only select the terminators); the numeric parsers answer None
+        let flags = MacroEvalExprFlags::new(MacroEvalNumericMode::Integer, MacroEvalNextArgumentMode::None, false, true, false);
+        let pnl: u32 = 0;
+        let toc = flags.terminate_on_comma() && (pnl == 0 || !flags.parens_mask_comma());
+        let c0 = t.ch[0];
+        // first chars on which the dispatcher reaches the string scanner without consuming
+        kani::assume(!matches!(c0, '\'' | '"' | '/' | '&' | '%' | '*' | '(' | ')' | '|' | '¬' | '^' | '~' | '+' | '-' | '<' | '>' | '=' | '#'));
+        kani::assume(!(c0 == ',' && toc) && !(c0 == ';' && flags.terminate_on_semi()));
+        kani::assume(!matches!(c0, 'e' | 'n' | 'l' | 'g' | 'a' | 'o' | 'i' | 'E' | 'N' | 'L' | 'G' | 'A' | 'O' | 'I'));
+        let mut lx = setup(&t, &[LexerMode::Default, LexerMode::ExpectSymbol(TokenType::RPAREN, TokenChannel::DEFAULT), LexerMode::MacroEval { macro_eval_flags: flags, pnl }]);
+        let pre = snapshot(&lx, &t);
+        lx.lex_macro_string_in_macro_eval_context(flags, toc);
+        let pi = check_common(&lx, &t, &pre);
+        check_progress::<$k, $b, 2>(&lx, &t, &pre, pi);
+        let tn = shadow::tok_n();
+        assert!(tn >= pre.tok_n + 1 && tn <= pre.tok_n + 2 && lx.errors.len() == pre.err_n && lx.mode_stack.len() == pre.stack_len, "C13: an operand scan yields the operand and/or its trailing blanks, nothing else");
+        let last = shadow::tok(tn - 1);
+        let (ls, le) = tok_range(&t, tn - 1, pi);
+        let all_ws = |s: usize, e: usize| {
+            let mut ok = true;
+            let mut i = 0;
+            while i < $k {
+                if i >= s && i < e && !t.ch[i].is_whitespace() {
+                    ok = false;
+                }
+                i += 1;
+            }
+            ok
+        };
+        if last.token_type == TokenType::WS {
+            assert!(last.channel == TokenChannel::HIDDEN && le > ls && all_ws(ls, le), "C06/C13: blanks around operators are a hidden, non-empty, all-whitespace WS token");
+        }
+        if tn == pre.tok_n + 2 || last.token_type != TokenType::WS {
+            let op = shadow::tok(pre.tok_n);
+            let (s, e) = tok_range(&t, pre.tok_n, pi);
+            assert!(op.channel == TokenChannel::DEFAULT && e > s && s == pre.pi, "C06: operand token is non-empty and starts where the scan started");
+            assert!(matches!(op.token_type, TokenType::MacroString | TokenType::IntegerLiteral | TokenType::FloatLiteral | TokenType::FloatExponentLiteral), "C13: operand is text or a numeric literal");
+            if tn == pre.tok_n + 2 {
+                assert!(last.token_type == TokenType::WS && !t.ch[e - 1].is_whitespace(), "C13: the operand ends where its trailing blanks begin");
+            } else if t.ch[e - 1].is_whitespace() {
+                // blanks stay inside the operand text only before a sub-token that continues the operand
+                assert!(matches!(ch_at(&t, e), Some('\'' | '"' | '/' | '&' | '%')), "C13: trailing blanks of an operand are hidden before an operator or delimiter");
+            }
+            if op.token_type != TokenType::MacroString {
+                // numeric operands are standalone: only numeric-literal characters
+                let mut i = 0;
+                while i < $k {
+                    if i >= s && i < e {
+                        assert!(t.ch[i].is_ascii_hexdigit() || matches!(t.ch[i], '.' | '+' | '-' | 'x' | 'X'), "C13/C08: a numeric operand token contains a non-numeric character");
+                    }
+                    i += 1;
+                }
+            }
+        }
+        kani::cover!(tn == pre.tok_n + 2 && t.nl_upto(pi) > 0, "operand followed by a line feed");
+        kani::cover!(tn == pre.tok_n + 1 && last.token_type == TokenType::WS);
+        
+        std::mem::forget(lx);
+    }
+}
+    };
+}
+lx_eval_string_lite_harness!(2, 8, 5, lx_eval_string_lite_n2, Txt::ascii_exact());
+lx_eval_string_lite_harness!(3, 8, 5, lx_eval_string_lite_n3, Txt::ascii_exact());
 lx_eval_string_harness!(3, 16, 5, lx_eval_string_k3, Txt::any(PFX, &[]));
 lx_eval_string_harness!(2, 12, 5, lx_eval_string_k2, Txt::any(PFX, &[]));
 // exactly n ASCII characters at constant byte positions (cheap enough for the quick tier)
